@@ -217,30 +217,30 @@ theorem ack1_bel (st : MTState) (c db : Nat) (p : Parts) (b : Bool) :
 /-- either the request fails on the compiler server before anything is stored, or it goes
     through `_sync`, `prepare`, `serve` -/
 theorem stepMT_cases (env : Env) (st : MTState) (q : MReq) :
-    ((stepMT env st q).1.cli = st.cli ∧ (stepMT env st q).1.wk = st.wk ∧
-      (stepMT env st q).1.clock = st.clock + 1 ∧ (stepMT env st q).1.bel = st.bel ∧
-      (stepMT env st q).2.used = none ∧ (stepMT env st q).2.res = .syncFail) ∨
+    ((stepMTRun env st q).1.cli = st.cli ∧ (stepMTRun env st q).1.wk = st.wk ∧
+      (stepMTRun env st q).1.clock = st.clock + 1 ∧ (stepMTRun env st q).1.bel = st.bel ∧
+      (stepMTRun env st q).2.used = none ∧ (stepMTRun env st q).2.res = .syncFail) ∨
     ∃ cs cs' u, st.cli q.c = some cs ∧
       sync2 cs q.r.db (preargs (st.bel q.c) q.r) st.clock = some (cs', u) ∧
-      (stepMT env st q).1.cli = (fun i => if i = q.c then some cs' else st.cli i) ∧
-      (stepMT env st q).1.wk = (fun i => if i = q.r.w then
+      (stepMTRun env st q).1.cli = (fun i => if i = q.c then some cs' else st.cli i) ∧
+      (stepMTRun env st q).1.wk = (fun i => if i = q.r.w then
           (serve env (prepare (st.wk q.r.w) q.c cs' st.cacheSize).1
             (prepare (st.wk q.r.w) q.c cs' st.cacheSize).2.2.2 q.c q.r.db cs'
             (prepare (st.wk q.r.w) q.c cs' st.cacheSize).2.2.1 q.r.out).1 else st.wk i) ∧
-      (stepMT env st q).1.clock = st.clock + 1 ∧
-      (stepMT env st q).2.used =
+      (stepMTRun env st q).1.clock = st.clock + 1 ∧
+      (stepMTRun env st q).2.used =
           (serve env (prepare (st.wk q.r.w) q.c cs' st.cacheSize).1
             (prepare (st.wk q.r.w) q.c cs' st.cacheSize).2.2.2 q.c q.r.db cs'
             (prepare (st.wk q.r.w) q.c cs' st.cacheSize).2.2.1 q.r.out).2.2.1 ∧
-      (stepMT env st q).2.res =
+      (stepMTRun env st q).2.res =
           (serve env (prepare (st.wk q.r.w) q.c cs' st.cacheSize).1
             (prepare (st.wk q.r.w) q.c cs' st.cacheSize).2.2.2 q.c q.r.db cs'
             (prepare (st.wk q.r.w) q.c cs' st.cacheSize).2.2.1 q.r.out).2.1 ∧
-      (stepMT env st q).1.bel = belAfter st.bel q.c q.r.db (preargs (st.bel q.c) q.r)
+      (stepMTRun env st q).1.bel = belAfter st.bel q.c q.r.db (preargs (st.bel q.c) q.r)
           (serve env (prepare (st.wk q.r.w) q.c cs' st.cacheSize).1
             (prepare (st.wk q.r.w) q.c cs' st.cacheSize).2.2.2 q.c q.r.db cs'
             (prepare (st.wk q.r.w) q.c cs' st.cacheSize).2.2.1 q.r.out).2.2.2 := by
-  unfold stepMT
+  unfold stepMTRun
   simp only []
   cases hcli : st.cli q.c with
   | none => left; exact ⟨rfl, rfl, rfl, rfl, rfl, rfl⟩
